@@ -24,6 +24,8 @@ def make_harness(spec_name, spec_fn, T):
         case = spec_fn(ch, T.at(k))
         if case is None:
             raise Skip("spec declined")
+        if not getattr(case, "value_oracle", True):
+            raise Skip("reduced-precision output: no value oracle (finite differences of a float32-valued function are noise)")
         opts = [o for o in W.argnum_options(case) if o != "same" and len(o) <= 2]
         which = ch.choose("argnum", opts)
         A = W.ag()
